@@ -35,3 +35,59 @@ RULE = ("a scheduler-using operator (delay, observe_on, debounce, throttle x 3, 
         "subscribe_on) with a single-input operator in front of it and one behind it (12 x 12 choices), over a subject, on the hook scheduler "
         "with a virtual clock, random label sequences of 6-17 labels; compared with the composition of the chain model, the timed model and the "
         "back channel (the chain behind reporting finished), and judged for the grammar and the silence after unsubscribe")
+
+
+OPS2 = [("(delay 5)", 5), ("observe_on", 2), ("(debounce 5)", 5), ("(buffer_with_time 5)", 5), ("(buffer_with_count_and_time 2 5)", 5),
+        ("(delay_subscription 5)", 5), ("subscribe_on", 2)]
+
+
+def two_cases(tier, rng, prefix="z"):
+    """two subscriptions made from clones of one scheduler-using operator value"""
+    cs = []
+    n = 0
+    per = 150 if tier == "quick" else 2500
+    for op, w in OPS2:
+        for _ in range(per):
+            seq = []
+            ntasks = 4
+            unsubbed = set()
+            item = 0
+            for _ in range(6 + rng.below(12)):
+                r = rng.below(100)
+                if r < 30:
+                    k = rng.below(10)
+                    if k < 7:
+                        item += 1
+                        seq.append("(src (n %d))" % item)
+                    elif k < 9:
+                        seq.append("(src c)")
+                    else:
+                        seq.append("(src (e 7))")
+                    ntasks += 2
+                elif r < 50:
+                    seq.append("(adv %d)" % rng.choice([1, w - 1 if w > 1 else 1, w, w, w + 1, 2 * w + 1]))
+                elif r < 60 and len(unsubbed) < 2:
+                    k = rng.below(2)
+                    if k not in unsubbed:
+                        unsubbed.add(k)
+                        seq.append("(unsub %d)" % k)
+                else:
+                    seq.append("(run %d)" % rng.below(ntasks))
+                if rng.below(100) < 50:
+                    order = list(range(ntasks))
+                    if rng.chance(1, 4):
+                        for i in range(len(order) - 1, 0, -1):
+                            j = rng.below(i + 1)
+                            order[i], order[j] = order[j], order[i]
+                    seq += ["(run %d)" % t for t in order]
+            n += 1
+            form = "local" if n % 2 else "threads"
+            cs.append(("%s%d" % (prefix, n), "(case %s%d timed2 %s %s (labels %s))" % (prefix, n, form, op, " ".join(seq)),
+                       {"kind": "timed2", "op": op, "opfull": op, "form": form, "class": "two-subscriptions"}))
+    return cs
+
+
+RULE2 = ("two subscriptions made from clones of ONE operator value (delay, observe_on, debounce, buffer_with_time, buffer_with_count_and_time, "
+         "delay_subscription, subscribe_on) over a subject, on the hook scheduler with a virtual clock: random label sequences (input events, "
+         "polls of any of the tasks of either subscription, clock advances, unsubscription of either one); compared with two independent timed "
+         "systems fed the same input")
